@@ -316,7 +316,11 @@ def run(ctx):
         "binned estimator; round 3: _get_nearest_neighbors on tied small-integer / half-integer / power-of-two-scaled "
         "arrays (T 2..39, dim 2..6, every k < T), only_tri and _calculate_mi of the pure-Python class on small "
         "integer / symbol arrays, surrogate matrices on re-played numpy draws (float32/float64, C/F), 8-call "
-        "histories on one pure-Python object; distinct = "
+        "histories on one pure-Python object; round 5: rational matrices N 1..6 (regular, singular, row swaps, 2^+-40 row "
+        "scalings) for the elimination / numpy.linalg.inv, exactly collinear integer series N 2..6 (duplicate, affine, "
+        "anti-correlated copy, sum of two, combination of three) and reordered / power-of-two affine images of "
+        "well-conditioned series through PartialCorrelationClimateNetwork, ragged tie-free rows T 1..59 for "
+        "_quantile_bin_array; distinct = "
         "distinct (suite, shape, data, parameters); non-trivial = at least two non-constant series")
     ctx.trusted = common.DEFAULT_TRUSTED + [
         "log, sqrt, digamma, numpy.corrcoef, numpy.linalg.inv/pinv, scipy.linalg.qr are library "
